@@ -388,12 +388,10 @@ fn toy_curve<T: Toy>(ctx: &mut Ctx, t: &T) {
         let last = *reps.last().unwrap();
         let tab = tabs[p].get_or_init(|| (2..=wmax).map(|w| WnafContext::new(w).table(reps[1])).collect());
         if k == 0 {
-            // the table itself: entry j = (2j+1) P
-            for (wi, tb) in tab.iter().enumerate() {
-                let w = wi + 2;
-                let ok = tb.len() == 1 << (w - 1) && tb.iter().enumerate().all(|(j, e)| t.idx_g(e) == Some(rm.mul(p, 2 * j as u128 + 1)));
-                loc.check_at("wnaf_table", ok, || format!("{name}: WnafContext::new({w}).table({:?}) is not [P, 3P, 5P, ...] of length 2^(w-1) (len {})", g.pts[p], tb.len()));
-            }
+            // the layout of the table ([P, 3P, 5P, ...], 2^(w-1) entries) is an implementation detail: observed as a
+            // class, judged only through the results of `mul_with_table` below
+            let odd_multiples = tab.iter().enumerate().all(|(wi, tb)| tb.len() == 1 << (wi + 1) && tb.iter().enumerate().all(|(j, e)| t.idx_g(e) == Some(rm.mul(p, 2 * j as u128 + 1))));
+            loc.class_if(odd_multiples, "observed:wnaf_table_is_[P,3P,5P,..]_of_length_2^(w-1)");
         }
         for w in 2..=wmax {
             let cx = WnafContext::new(w);
@@ -407,22 +405,28 @@ fn toy_curve<T: Toy>(ctx: &mut Ctx, t: &T) {
                 Err(m) => out.push(("wnaf_table", Err(m.clone()))),
             }
             out.push(("wnaf_mul_with_table/reused", guard(|| cx.mul_with_table(&tab[w - 2], &kf)).and_then(|o| o.ok_or("returned None for a table of exactly 2^(w-1) entries".to_string()))));
-            // longer than needed: the table of window w+1 (top window: the own table followed by three more entries)
-            let padded: Vec<T::G>;
-            let longer: &[T::G] = if w < wmax {
-                &tab[w - 1]
-            } else {
-                padded = tab[w - 2].iter().copied().chain([reps[0], last, reps[1]]).collect();
-                &padded
-            };
-            out.push(("wnaf_mul_with_table/longer", guard(|| cx.mul_with_table(longer, &kf)).and_then(|o| o.ok_or("returned None for a table longer than needed".to_string()))));
+            // longer than needed: this context's own table followed by three more entries
+            let padded: Vec<T::G> = tab[w - 2].iter().copied().chain([reps[0], last, reps[1]]).collect();
+            out.push(("wnaf_mul_with_table/longer", guard(|| cx.mul_with_table(&padded, &kf)).and_then(|o| o.ok_or("returned None for a table longer than needed".to_string()))));
             judge(t, loc, out, want, &|| format!("P={:?} k={k} window {w}", g.pts[p]));
-            // shorter than needed: must be refused
-            loc.class("wnaf:short_table_none");
+            // the table of the NEXT window used with this context: right only if table(w+1) extends table(w) - a layout
+            // fact, observed and not judged
+            if w < wmax {
+                let r2 = guard(|| cx.mul_with_table(&tab[w - 1], &kf));
+                loc.class_if(matches!(&r2, Ok(Some(x)) if t.idx_g(x) == Some(want)), "observed:wnaf_table(w+1)_usable_by_window_w");
+            }
+            // shorter than needed: refused (None, as the rustdoc says) - or, all the property needs, still the right point
+            loc.class("wnaf:short_table");
             for short in [need - 1, need / 2, 0] {
                 let res = guard(|| cx.mul_with_table(&tab[w - 2][..short], &kf));
-                loc.check_at("wnaf_mul_with_table/short_table", matches!(res, Ok(None)), || {
-                    format!("{name}: window {w}, table of {short} < {need} entries, P={:?} k={k}: expected None, got {:?}", g.pts[p], res.as_ref().map(|o| o.map(|x| t.idx_g(&x))))
+                let ok = match &res {
+                    Ok(None) => true,
+                    Ok(Some(x)) => t.idx_g(x) == Some(want),
+                    Err(_) => false,
+                };
+                loc.class_if(matches!(res, Ok(None)), "observed:wnaf_short_table_gives_None");
+                loc.check_at("wnaf_mul_with_table/short_table", ok, || {
+                    format!("{name}: window {w}, table of {short} < {need} entries, P={:?} k={k}: expected None or k*P, got {:?}", g.pts[p], res.as_ref().map(|o| o.map(|x| t.idx_g(&x))))
                 });
             }
         }
@@ -525,6 +529,9 @@ fn toy_curve<T: Toy>(ctx: &mut Ctx, t: &T) {
                     continue;
                 }
             };
+            // (classes read off the table actually built, next to the ones from the harness's model of the window rule)
+            loc.class_if(tb.window > 0 && tb.max_scalar_size % tb.window != 0, "batch:built_table_last_window_shorter");
+            loc.class_if(tb.window != w, "batch:window_differs_from_ln_rule");
             cmp(loc, site, guard(|| tb.batch_mul(v)), &ks);
             cmp(loc, "batch_mul_with_preprocessing", guard(|| <T::G as ScalarMul>::batch_mul_with_preprocessing(&tb, v)), &ks);
             cmp(loc, site, guard(|| tb.batch_mul(&[])), &[]);
@@ -543,7 +550,8 @@ fn toy_curve<T: Toy>(ctx: &mut Ctx, t: &T) {
     });
 }
 
-/// `WnafContext::new` documents a panic unless 2 <= w < 64; tables shorter than 2^(w-1) are refused for every w
+/// `WnafContext::new` documents (rustdoc "# Panics") a panic unless 2 <= w < 64 - kept as an assertion for that reason;
+/// tables shorter than 2^(w-1) entries: None (documented) or the right point
 fn wnaf_window_contract(ctx: &mut Ctx) {
     let t = SwToy::<algebra_mc::toy::gen_curves::SwP13A0B2>::new("SwP13A0B2");
     let windows: Vec<usize> = vec![0, 1, 2, 3, 10, 11, 32, 62, 63, 64, 65, 128, usize::MAX];
@@ -557,16 +565,23 @@ fn wnaf_window_contract(ctx: &mut Ctx) {
             loc.check_at("wnaf_new", cx.window_size == w, || format!("WnafContext::new({w}).window_size = {}", cx.window_size));
         }
     });
-    // every valid window 11..=63 with a 512-entry table (too short): None for every k; windows 2..=10 are covered per curve
+    // every valid window 11..=63 with a 512-entry table (too short): None (or still k*P) for every k; windows 2..=10 are covered per curve
     let r = t.r;
     let tab = WnafContext::new(10).table(t.proj(t.gen, 2));
     ctx.sweep("wnaf/short_table_large_windows", (63 - 10) * r, |i, loc| {
         let [k, wi] = unrank(i, [r, 53]);
         let w = 11 + wi as usize;
-        loc.class("wnaf:short_table_none");
+        loc.class("wnaf:short_table");
         loc.class("wnaf:window>bits(r)");
         let res = guard(|| WnafContext::new(w).mul_with_table(&tab, &t.scalar(k)));
-        loc.check_at("wnaf_mul_with_table/short_table", matches!(res, Ok(None)), || format!("window {w}, table of 512 entries, k={k}: expected None, got {:?}", res.as_ref().map(|o| o.is_some())));
+        let want = t.g.mul(k, t.gen);
+        let ok = match &res {
+            Ok(None) => true,
+            Ok(Some(x)) => want.is_some() && t.idx_proj(x) == want,
+            Err(_) => false,
+        };
+        loc.class_if(matches!(res, Ok(None)), "observed:wnaf_short_table_gives_None");
+        loc.check_at("wnaf_mul_with_table/short_table", ok, || format!("window {w}, table of 512 entries, k={k}: expected None or k*P, got {:?}", res.as_ref().map(|o| o.map(|x| t.idx_proj(&x)))));
     });
 }
 
@@ -796,6 +811,9 @@ struct ShippedOpts {
     ovr: bool,
     /// extra scalars (lambda, lattice entries, ...)
     extra: Vec<(String, BigUint)>,
+    /// GLV curves: for k < r, is the split of k the trivial one (k, 0) under EVERY rounding rule
+    /// (2 k |n22| < r and 2 k |n12| < r, so both Babai coefficients round to 0)?  Computed from the constants only.
+    glv_split_trivial: Option<Box<dyn Fn(&BigUint) -> bool + Send + Sync>>,
 }
 
 fn scalar_alphabet<F: PrimeField>(extra: &[(String, BigUint)]) -> Vec<Scalar> {
@@ -908,13 +926,32 @@ fn shipped_curve<G: CurveGroup>(ctx: &mut Ctx, name: &str, outside: Option<(Stri
     let wmax: usize = ctx.t(6, 8);
     let (np, nsc) = (pts.len() as u64, scalars.len() as u64);
     let ovr = opts.ovr;
+    let light = std::mem::size_of::<G::BaseField>() <= 96 && nl <= 4;
+    let full_tables = light || ctx.thorough();
     let same = |a: &G, b: &G| a.into_affine() == b.into_affine();
+    // Known finding K2 (the G1 override runs GLV on k mod r; the endomorphism is not multiplication by lambda outside
+    // the subgroup) can only concern scalars that reach the GLV path (at most N significant limbs) and are either
+    // reduced (k >= r) or split non-trivially.  Every other scalar on the outside point is filed under a site of its
+    // own (`.../outside_subgroup_small_k`, message without "P = Q") so that a failure there is reported as new.
+    let split_trivial = opts.glv_split_trivial;
+    let r_for_sites = r.clone();
+    let k2_side = move |v: &BigUint, limbs: &[u64]| -> bool {
+        let significant = limbs.iter().rposition(|l| *l != 0).map_or(0, |i| i + 1);
+        significant <= nl && (*v >= r_for_sites || !split_trivial.as_ref().map_or(false, |f| f(v)))
+    };
+    // preconditions that are facts of C03 / C01, not of C04: counted here, turned into a self-validation failure below
+    let (bad_oracle, bad_conv) = (std::sync::atomic::AtomicU64::new(0), std::sync::atomic::AtomicU64::new(0));
     ctx.sweep(&format!("shipped/{name}"), np * nsc, |i, loc| {
         let [si, pi] = unrank(i, [nsc, np]);
         let (pt, s) = (&pts[pi as usize], &scalars[si as usize]);
         let want = dbl_add(pt.g, &s.v);
         let want_a = dbl_add::<G>(pt.a.into(), &s.v);
-        loc.check_at("oracle_consistency", same(&want, &want_a), || format!("{name}: double-and-add from the affine and the projective form of {} disagree (k = {})", pt.label, s.label));
+        if !same(&want, &want_a) {
+            // the oracle (double-and-add on the group's + / double, property C03) is not well defined on this input
+            bad_oracle.fetch_add(1, std::sync::atomic::Ordering::Relaxed);
+            loc.class("precondition_failed:oracle_differs_between_affine_and_projective_form(C03)");
+            return;
+        }
         let long = s.limbs.len() > nl;
         loc.class_if(s.v.is_zero(), "k=0");
         loc.class_if(s.v.is_one(), "k=1");
@@ -931,7 +968,12 @@ fn shipped_curve<G: CurveGroup>(ctx: &mut Ctx, name: &str, outside: Option<(Stri
         slice_paths::<G>(pt.a, pt.g, &s.limbs, &mut out);
         if s.field {
             let k = Fr::<G>::from(s.v.clone());
-            loc.check_at("scalar_conversion", from_limbs(k.into_bigint().as_ref()) == s.v, || format!("{name}: ScalarField::from({}) has integer value {}", s.v, from_limbs(k.into_bigint().as_ref())));
+            if from_limbs(k.into_bigint().as_ref()) != s.v {
+                // ScalarField::from(BigUint) / into_bigint do not round-trip (property C01): no verdict from this case
+                bad_conv.fetch_add(1, std::sync::atomic::Ordering::Relaxed);
+                loc.class("precondition_failed:scalar_conversion_round_trip(C01)");
+                return;
+            }
             field_paths::<G>(pt.a, pt.g, k, &mut out);
             loc.class_if((2..=wmax).any(|w| {
                 // carry out of the top window, on the true (multi-limb) integer
@@ -941,23 +983,42 @@ fn shipped_curve<G: CurveGroup>(ctx: &mut Ctx, name: &str, outside: Option<(Stri
             for w in 2..=wmax {
                 let cx = WnafContext::new(w);
                 path!(out, "wnaf_mul", cx.mul(pt.g, &k));
-                if w == 4 {
-                    let tb = guard(|| cx.table(pt.g));
-                    if let Ok(tb) = &tb {
+                // precomputed tables: exact size, longer than needed (own table + 2 entries), one entry short - for EVERY
+                // window on 2G (Z != 1) and (quick: 4-limb scalar fields over base fields <= 96 bytes; thorough: all) on the point outside the
+                // subgroup, for window 4 on the other points
+                if !(w == 4 || (pt.outside && full_tables) || pt.label.starts_with("2G")) {
+                    continue;
+                }
+                loc.class_if(w != 4, "wnaf:precomputed_table_window≠4_real_curve");
+                let tb = guard(|| cx.table(pt.g));
+                match &tb {
+                    Ok(tb) => {
                         out.push(("wnaf_mul_with_table/fresh", guard(|| cx.mul_with_table(tb, &k)).and_then(|o| o.ok_or("returned None".to_string()))));
+                        let longer: Vec<G> = tb.iter().copied().chain([pt.g, pt.g.double()]).collect();
+                        out.push(("wnaf_mul_with_table/longer", guard(|| cx.mul_with_table(&longer, &k)).and_then(|o| o.ok_or("returned None for a table longer than needed".to_string()))));
                         let res = guard(|| cx.mul_with_table(&tb[..tb.len() - 1], &k));
-                        loc.class("wnaf:short_table_none");
-                        loc.check_at("wnaf_mul_with_table/short_table", matches!(res, Ok(None)), || format!("{name}: window 4 with a 7-entry table: expected None"));
+                        loc.class("wnaf:short_table");
+                        loc.class_if(matches!(res, Ok(None)), "observed:wnaf_short_table_gives_None");
+                        let ok = match &res {
+                            Ok(None) => true,
+                            Ok(Some(x)) => same(x, &want),
+                            Err(_) => false,
+                        };
+                        loc.check_at("wnaf_mul_with_table/short_table", ok, || format!("{name}: window {w} with a table one entry short, P = {} k = {}: expected None or k*P", pt.label, s.label));
                     }
+                    Err(m) => out.push(("wnaf_table", Err(m.clone()))),
                 }
             }
         }
         for (site, res) in out {
             let proj_entry = site.starts_with("projective_");
-            let site: &str = if ovr && long && site == "projective_mul_bigint" {
-                "g1_mul_projective_override/long_scalar"
+            let small_k = ovr && pt.outside && proj_entry && !k2_side(&s.v, &s.limbs);
+            let site: &str = if small_k {
+                "g1_mul_projective_override/outside_subgroup_small_k"
             } else if ovr && pt.outside && proj_entry {
                 "g1_mul_projective_override/outside_subgroup"
+            } else if ovr && long && site == "projective_mul_bigint" {
+                "g1_mul_projective_override/long_scalar"
             } else if long && site == "projective_mul_bigint" {
                 "projective_mul_bigint/long_scalar"
             } else if pt.outside && proj_entry {
@@ -965,7 +1026,10 @@ fn shipped_curve<G: CurveGroup>(ctx: &mut Ctx, name: &str, outside: Option<(Stri
             } else {
                 site
             };
-            let ctxt = || format!("{name}: P = {}{} k = {} (limbs {:x?}) via {site}", pt.label, if pt.outside { format!(" [{outside_label}]") } else { String::new() }, s.label, s.limbs);
+            loc.class_if(small_k, "P_outside_subgroup:override_with_trivial_glv_split");
+            // (the known-finding entries match on "P = Q": the small-k site words the point differently on purpose)
+            let pword = if small_k { "point" } else { "P =" };
+            let ctxt = || format!("{name}: {pword} {}{} k = {} (limbs {:x?}) via {site}", pt.label, if pt.outside { format!(" [{outside_label}]") } else { String::new() }, s.label, s.limbs);
             match res {
                 Ok(g) => {
                     loc.check_at(site, same(&g, &want), || format!("{}: got {} want {}", ctxt(), g.into_affine(), want.into_affine()));
@@ -974,10 +1038,11 @@ fn shipped_curve<G: CurveGroup>(ctx: &mut Ctx, name: &str, outside: Option<(Stri
             }
         }
     });
+    ctx.validate(bad_oracle.load(std::sync::atomic::Ordering::Relaxed) == 0, &format!("{name}: the reference double-and-add gives the same point from the affine and the projective form of every alphabet point (a C03 fact; C04 has no oracle otherwise)"));
+    ctx.validate(bad_conv.load(std::sync::atomic::Ordering::Relaxed) == 0, &format!("{name}: ScalarField::from(BigUint).into_bigint() round-trips on the scalar alphabet (a C01 fact)"));
     // every bit position: k = 2^j - 1 (runs of ones), 2^j, 2^j + 1 for every j <= bits(r), on 2G (Z != 1) and on the
     // point outside the subgroup (gives the smallest failing scalar there). quick: 4-limb scalar fields over
     // base fields of at most 96 bytes; thorough: every curve.
-    let light = std::mem::size_of::<G::BaseField>() <= 96 && nl <= 4;
     if ctx.thorough() || light {
         let nb = r.bits() + 1;
         let bp: Vec<&ShPoint<G>> = pts.iter().filter(|p| p.outside || p.label.starts_with("2G")).collect();
@@ -1005,18 +1070,22 @@ fn shipped_curve<G: CurveGroup>(ctx: &mut Ctx, name: &str, outside: Option<(Stri
             if loc.sampling() {
                 loc.sample(format!("{name}: P = {} k = {kl}", pt.label));
             }
+            let small_k = ovr && pt.outside && !k2_side(&v, &limbs);
+            loc.class_if(small_k, "P_outside_subgroup:override_with_trivial_glv_split");
             for (site, res) in out {
                 let site = match (site, pt.outside, ovr) {
+                    ("projective_mul_bigint", true, true) if small_k => "g1_mul_projective_override/outside_subgroup_small_k",
                     ("projective_mul_bigint", true, true) => "g1_mul_projective_override/outside_subgroup",
                     ("projective_mul_bigint", true, false) => "projective_entry_points/outside_subgroup",
                     _ => site,
                 };
                 let lbl = if pt.outside { format!("Q = {outside_label}") } else { pt.label.clone() };
+                let pword = if small_k { "point" } else { "P =" };
                 match res {
                     Ok(g) => {
-                        loc.check_at(site, same(&g, &want), || format!("{name}: P = {lbl} (projective, Z != 1), k = {kl} via {site}: got {} but k*P = {} (affine entry point: {})", g.into_affine(), want.into_affine(), pt.a.mul_bigint(&limbs).into_affine()));
+                        loc.check_at(site, same(&g, &want), || format!("{name}: {pword} {lbl} (projective, Z != 1), k = {kl} via {site}: got {} but k*P = {} (affine entry point: {})", g.into_affine(), want.into_affine(), pt.a.mul_bigint(&limbs).into_affine()));
                     }
-                    Err(m) => loc.fail_at(site, format!("{name}: P = {lbl} k = {kl} via {site}: {m}")),
+                    Err(m) => loc.fail_at(site, format!("{name}: {pword} {lbl} k = {kl} via {site}: {m}")),
                 }
             }
         });
@@ -1065,11 +1134,29 @@ fn te_outside<P: TECurveConfig>() -> Option<(String, te::Affine<P>)> {
     pick_outside::<te::Projective<P>>((2u64..26).filter_map(|y| te::Affine::<P>::get_point_from_y_unchecked(P::BaseField::from(y), false).map(|q| (format!("first curve point with y = {y}"), q))))
 }
 
+/// alphabet floor: a curve with cofactor > 1 (TE: and a complete law) must contribute a point outside the prime-order
+/// subgroup; the number of curves that do is a metric, a curve that silently does not is a machinery error
+fn outside_floor<A>(ctx: &mut Ctx, name: &str, cofactor: &[u64], in_scope: bool, q: &Option<(String, A)>) {
+    let h_gt_1 = from_limbs(cofactor) != BigUint::one();
+    ctx.add_class("shipped:curves_with_point_outside_subgroup", q.is_some() as u64);
+    if h_gt_1 && in_scope {
+        ctx.add_class("shipped:curves_with_cofactor>1_in_scope", 1);
+        ctx.validate(q.is_some(), &format!("{name}: cofactor > 1 but no point outside the prime-order subgroup was found among the first curve points"));
+    }
+}
+fn te_complete<P: TECurveConfig>() -> bool {
+    use ark_ff::LegendreSymbol::*;
+    matches!(P::COEFF_A.legendre(), QuadraticResidue) && matches!(P::COEFF_D.legendre(), QuadraticNonResidue)
+}
 fn shipped_sw<P: SWCurveConfig>(ctx: &mut Ctx, name: &str, ovr: bool) {
-    shipped_curve::<sw::Projective<P>>(ctx, name, sw_outside::<P>(), ShippedOpts { ovr, extra: vec![] });
+    let q = sw_outside::<P>();
+    outside_floor(ctx, name, P::COFACTOR, true, &q);
+    shipped_curve::<sw::Projective<P>>(ctx, name, q, ShippedOpts { ovr, extra: vec![], glv_split_trivial: None });
 }
 fn shipped_te<P: TECurveConfig>(ctx: &mut Ctx, name: &str) {
-    shipped_curve::<te::Projective<P>>(ctx, name, te_outside::<P>(), ShippedOpts { ovr: false, extra: vec![] });
+    let q = te_outside::<P>();
+    outside_floor(ctx, name, P::COFACTOR, te_complete::<P>(), &q);
+    shipped_curve::<te::Projective<P>>(ctx, name, q, ShippedOpts { ovr: false, extra: vec![], glv_split_trivial: None });
 }
 
 fn sbig(x: &BigUint) -> SBig {
@@ -1094,7 +1181,12 @@ fn shipped_glv<P: GLVConfig>(ctx: &mut Ctx, name: &str, ovr: bool) {
         extra.push((format!("|n{}{}|+1", i / 2 + 1, i % 2 + 1), &v + 1u32));
         extra.push((format!("r-|n{}{}|", i / 2 + 1, i % 2 + 1), &r - (&v % &r)));
     }
-    shipped_curve::<sw::Projective<P>>(ctx, name, sw_outside::<P>(), ShippedOpts { ovr, extra: extra.clone() });
+    let q = sw_outside::<P>();
+    outside_floor(ctx, name, P::COFACTOR, true, &q);
+    let (a22, a12): (BigUint, BigUint) = (P::SCALAR_DECOMP_COEFFS[3].1.into(), P::SCALAR_DECOMP_COEFFS[1].1.into());
+    let rr = r.clone();
+    let trivial = move |k: &BigUint| -> bool { (k * &a22) << 1usize < rr && (k * &a12) << 1usize < rr };
+    shipped_curve::<sw::Projective<P>>(ctx, name, q, ShippedOpts { ovr, extra: extra.clone(), glv_split_trivial: Some(Box::new(trivial)) });
 
     let scalars: Vec<Scalar> = scalar_alphabet::<Fr_<P>>(&extra).into_iter().filter(|s| s.field).collect();
     let pts = shipped_points::<sw::Projective<P>>(None);
@@ -1146,19 +1238,30 @@ fn shipped_glv<P: GLVConfig>(ctx: &mut Ctx, name: &str, ovr: bool) {
     });
     let nl = <Fr_<P> as PrimeField>::MODULUS.as_ref().len();
     if ctx.thorough() || (std::mem::size_of::<P::BaseField>() <= 96 && nl <= 4) {
+        // every bit position through BOTH glv_mul_projective and glv_mul_affine, on G, 2G (Z != 1) and a generic-looking
+        // point of the subgroup (H = k_generic * G by the oracle, Z != 1)
         let nb = r.bits() + 1;
-        ctx.sweep(&format!("shipped_glv/{name}/glv_mul_bit_positions"), 3 * nb, |i, loc| {
-            let [e, j] = unrank(i, [3, nb]);
+        let hk = scalars.iter().find(|s| s.label == "generic").map(|s| s.v.clone()).unwrap_or_else(|| BigUint::from(0x1234_5678_9abc_def1u64));
+        let hg = dbl_add(pts[1].g, &hk);
+        let bp: Vec<(String, sw::Projective<P>, sw::Affine<P>)> = vec![("G".to_string(), pts[1].g, pts[1].a), (pts[3].label.clone(), pts[3].g, pts[3].a), ("H = generic*G (Z != 1)".to_string(), hg, hg.into_affine())];
+        ctx.validate(!hg.is_zero() && hg.into_affine() != pts[1].a, &format!("{name}: generic subgroup point differs from O and G"));
+        let nbp = bp.len() as u64;
+        ctx.sweep(&format!("shipped_glv/{name}/glv_mul_bit_positions"), 3 * nb * nbp, |i, loc| {
+            let [e, j, pi] = unrank(i, [3, nb, nbp]);
             let kl = format!("2^{j}{}", ["-1", "", "+1"][e as usize]);
             let v = (BigUint::one() << j as usize) + e - 1u32;
             if v >= r {
                 return;
             }
             loc.class_if(e == 0 && j >= 64, "k=long_run_of_ones");
-            let pt = &pts[3];
-            let want = dbl_add(pt.g, &v);
-            let res = guard(|| P::glv_mul_projective(pt.g, Fr_::<P>::from(v.clone())));
-            loc.check_at("glv_mul_projective", res.as_ref().map(|g| same(g, &want)) == Ok(true), || format!("{name}: P = {} k = {kl}: got {:?} want {}", pt.label, res.as_ref().map(|g| g.into_affine()), want.into_affine()));
+            loc.class("glv:affine_and_projective_every_bit_position");
+            let (label, pg, pa) = &bp[pi as usize];
+            let want = dbl_add(*pg, &v);
+            let k = Fr_::<P>::from(v.clone());
+            let res = guard(|| P::glv_mul_projective(*pg, k));
+            loc.check_at("glv_mul_projective", res.as_ref().map(|g| same(g, &want)) == Ok(true), || format!("{name}: P = {label} k = {kl}: got {:?} want {}", res.as_ref().map(|g| g.into_affine()), want.into_affine()));
+            let res = guard(|| P::glv_mul_affine(*pa, k));
+            loc.check_at("glv_mul_affine", res.as_ref().map(|g| *g == want.into_affine()) == Ok(true), || format!("{name}: P = {label} k = {kl}: got {:?} want {}", res, want.into_affine()));
         });
     }
     ctx.sweep(&format!("shipped_glv/{name}/endomorphism"), np, |i, loc| {
@@ -1174,49 +1277,138 @@ fn shipped_glv<P: GLVConfig>(ctx: &mut Ctx, name: &str, ovr: bool) {
 
 type Iso<C> = <C as WBConfig>::IsogenousCurve;
 
-/// Fixed-base tables with LARGE windows on real 255..381-bit scalars: the toy scalar fields have fewer bits
-/// than any window >= 11, so window-extraction bugs for wide windows cannot show there.  One case = one
-/// (table sizing, scalar); the table is built once per sizing (shared), the oracle is plain double-and-add.
+/// Fixed-base tables on real 255..381-bit scalars, for EVERY window 3..=16 (thorough: ..=19): the toy scalar fields
+/// have fewer bits than any window >= 11 and fit a single window of most smaller ones, so window-extraction bugs
+/// cannot show there.  One case = one (table sizing, scalar); the table is built once per sizing (shared), the
+/// oracle is plain double-and-add.  Tables come from `with_num_scalars_and_scalar_size` (every hint) and from
+/// `BatchMulPreprocessing::new` (two hints); the last case of the space is `ScalarMul::batch_mul` on the whole alphabet.
 fn shipped_batch_large_windows<G: CurveGroup>(ctx: &mut Ctx, name: &str) {
     let bits = <Fr<G> as PrimeField>::MODULUS_BIT_SIZE as usize;
-    // num_scalars hints -> documented window ln(n) ~ ceil(log2 n) * 69 / 100
-    let hints: Vec<usize> = if ctx.quick() { vec![1 << 16, (1 << 17) + 1, (1 << 19) + 1, (1 << 20) + 1] } else { vec![1 << 16, (1 << 17) + 1, (1 << 19) + 1, (1 << 20) + 1, (1 << 21) + 1, (1 << 23) + 1, (1 << 24) + 1] };
+    // num_scalars hints -> documented window ln(n) ~ ceil(log2 n) * 69 / 100: 3, 4, 5, 6, 7, 8, 9, 10, then 11, 12, 13, 14 (..)
+    let mut hints: Vec<usize> = vec![1, 33, 200, 512, (1 << 10) + 1, 1 << 12, (1 << 13) + 1, 1 << 15, 1 << 16, (1 << 17) + 1, (1 << 19) + 1, (1 << 20) + 1];
+    if !ctx.quick() {
+        hints.extend([(1 << 21) + 1, (1 << 23) + 1, (1 << 24) + 1]);
+    }
     let scalars: Vec<Scalar> = scalar_alphabet::<Fr<G>>(&[]).into_iter().filter(|s| s.field).collect();
     let gen = <G as PrimeGroup>::generator();
     let base = gen.double() + gen; // 3G, not normalised
-    let tables: Vec<(usize, usize, Result<BatchMulPreprocessing<G>, String>)> = hints
+    let mut tables: Vec<(&'static str, usize, usize, Result<BatchMulPreprocessing<G>, String>)> = hints
         .iter()
-        .map(|h| (*h, model_batch_window(*h), guard(|| BatchMulPreprocessing::<G>::with_num_scalars_and_scalar_size(base, *h, bits))))
+        .map(|h| ("with_num_scalars_and_scalar_size", *h, model_batch_window(*h), guard(|| BatchMulPreprocessing::<G>::with_num_scalars_and_scalar_size(base, *h, bits))))
         .collect();
+    for h in [200usize, (1 << 13) + 1] {
+        tables.push(("new", h, model_batch_window(h), guard(|| BatchMulPreprocessing::<G>::new(base, h))));
+    }
     let (nt, ns) = (tables.len() as u64, scalars.len() as u64);
-    ctx.sweep(&format!("shipped_batch_large_window/{name}"), nt * ns, |i, loc| {
+    ctx.bound(&format!("shipped_batch.{name}"), format!("num_scalars hints {hints:?} (+ BatchMulPreprocessing::new for 200, 2^13+1) x {ns} field scalars, base 3G; ScalarMul::batch_mul on the whole alphabet"));
+    ctx.sweep(&format!("shipped_batch_large_window/{name}"), nt * ns + 1, |i, loc| {
+        if i == nt * ns {
+            // ScalarMul::batch_mul sizes its own table from the slice length
+            loc.class("batch:ScalarMul::batch_mul_real_curve");
+            let ks: Vec<Fr<G>> = scalars.iter().map(|s| Fr::<G>::from(s.v.clone())).collect();
+            match guard(|| base.batch_mul(&ks)) {
+                Ok(v) => {
+                    let bad = if v.len() != ks.len() { Some(format!("{} results for {} scalars", v.len(), ks.len())) } else { scalars.iter().zip(&v).find(|(s, got)| **got != dbl_add(base, &s.v).into_affine()).map(|(s, _)| format!("k = {}", s.label)) };
+                    loc.ops(ks.len() as u64);
+                    loc.check_at("scalarmul_batch_mul", bad.is_none(), || format!("{name}: (3G).batch_mul(scalar alphabet): wrong at {}", bad.clone().unwrap()));
+                }
+                Err(e) => loc.fail_at("scalarmul_batch_mul", format!("{name}: (3G).batch_mul(scalar alphabet) panicked: {e}")),
+            }
+            return;
+        }
         let [si, ti] = unrank(i, [ns, nt]);
-        let (hint, w, table) = &tables[ti as usize];
+        let (ctor, hint, w, table) = &tables[ti as usize];
         let s = &scalars[si as usize];
-        loc.class("batch:window>=11");
+        loc.class_if(*w >= 11, "batch:window>=11");
         loc.class_if(*w >= 13, "batch:window>=13");
+        loc.class_if(*w <= 10 && bits > 2 * *w, "batch:window<=10_multi_window_scalar_real_curve");
+        loc.class_if(*ctor == "new", "batch:BatchMulPreprocessing::new_real_curve");
         let table = match table {
             Ok(t) => t,
             Err(e) => {
-                loc.fail_at("batch_large_window", format!("{name}: building the table for num_scalars={hint} (window {w}) panicked: {e}"));
+                loc.fail_at("batch_large_window", format!("{name}: building the table ({ctor}) for num_scalars={hint} (window {w}) panicked: {e}"));
                 return;
             }
         };
-        // the window actually chosen is an implementation detail (recorded, not demanded); labels use the real one
+        // the window actually chosen is an implementation detail (recorded, not demanded); these labels use the real one
         loc.class_if(table.window != *w, "batch:window_differs_from_ln_rule");
         loc.class_if(table.window >= 11, "batch:actual_window>=11");
+        loc.class_if(table.window >= 13, "batch:built_table_window>=13");
+        loc.class_if((3..=10).contains(&table.window), "batch:built_table_window_3..=10");
+        loc.class_if(table.window > 0 && table.max_scalar_size % table.window != 0, "batch:built_table_last_window_shorter");
         let k: Fr<G> = Fr::<G>::from(s.v.clone());
         let want = dbl_add(base, &s.v).into_affine();
         match guard(|| table.batch_mul(&[k, Fr::<G>::zero(), k])) {
             Ok(v) => {
                 loc.check_at("batch_large_window", v.len() == 3 && v[0] == want && v[2] == want && v[1].is_zero(), || {
-                    format!("{name}: BatchMulPreprocessing(num_scalars={hint}, window {w}).batch_mul([k, 0, k]) with k = {} is not [kB, O, kB]", s.label)
+                    format!("{name}: BatchMulPreprocessing::{ctor}(num_scalars={hint}, window {w}).batch_mul([k, 0, k]) with k = {} is not [kB, O, kB]", s.label)
                 });
             }
             Err(e) => loc.fail_at("batch_large_window", format!("{name}: batch_mul panicked for num_scalars={hint}, k = {}: {e}", s.label)),
         }
         if loc.sampling() {
-            loc.sample(format!("{name}: table num_scalars={hint} window={w}, k = {}", s.label));
+            loc.sample(format!("{name}: table {ctor} num_scalars={hint} window={w}, k = {}", s.label));
+        }
+    });
+}
+
+/// wNAF with LARGE windows (tables of 2^(w-1) real points) on multi-digit scalars: one shipped curve, windows
+/// {9, 10, 12, 13} (thorough: + 16), scalar alphabet (r-1 included) plus every single-bit scalar 2^j and every
+/// all-ones scalar 2^j - 1 below r.  One table per window (built once, shared): exact, and padded with two entries.
+fn shipped_wnaf_large_windows<G: CurveGroup>(ctx: &mut Ctx, name: &str) {
+    let r: BigUint = <Fr<G> as PrimeField>::MODULUS.into();
+    let mut windows: Vec<usize> = vec![9, 10, 12, 13];
+    if !ctx.quick() {
+        windows.push(16);
+    }
+    let mut scalars: Vec<(String, BigUint, bool)> = scalar_alphabet::<Fr<G>>(&[]).into_iter().filter(|s| s.field).map(|s| (s.label, s.v, true)).collect();
+    for j in 0..=r.bits() as usize {
+        for (e, lbl) in [(0u32, "-1"), (1, "")] {
+            let v = (BigUint::one() << j) + e - 1u32;
+            if v < r {
+                scalars.push((format!("2^{j}{lbl}"), v, false));
+            }
+        }
+    }
+    let gen = <G as PrimeGroup>::generator();
+    let base = gen.double() + gen; // 3G, Z != 1
+    let tabs: Vec<(usize, Result<Vec<G>, String>)> = windows.iter().map(|w| (*w, guard(|| WnafContext::new(*w).table(base)))).collect();
+    let (nw, ns) = (windows.len() as u64, scalars.len() as u64);
+    ctx.bound(&format!("shipped_wnaf_large_windows.{name}"), format!("windows {windows:?} x ({} alphabet scalars + 2^j, 2^j - 1 for every j <= bits(r)), base 3G; WnafContext::mul (alphabet scalars), mul_with_table on the exact table and on the table padded with two entries", scalars.iter().filter(|s| s.2).count()));
+    ctx.sweep(&format!("shipped_wnaf_large_windows/{name}"), nw * ns, |i, loc| {
+        let [si, wi] = unrank(i, [ns, nw]);
+        let (w, tab) = &tabs[wi as usize];
+        let (label, v, alpha) = &scalars[si as usize];
+        let k = Fr::<G>::from(v.clone());
+        let want = dbl_add(base, v);
+        let same = |a: &G, b: &G| a.into_affine() == b.into_affine();
+        loc.class("wnaf:window>=9_multi_digit_scalar_real_curve");
+        loc.class_if(*w >= 12, "wnaf:window>=12_multi_digit_scalar_real_curve");
+        loc.class_if(*v == &r - 1u32, "k=r-1");
+        loc.class_if(!*alpha && label.ends_with("-1") && v.bits() >= 64, "k=long_run_of_ones");
+        if loc.sampling() {
+            loc.sample(format!("{name}: wNAF window {w}, base 3G, k = {label}"));
+        }
+        let cx = WnafContext::new(*w);
+        let mut out: Paths<G> = Vec::new();
+        match tab {
+            Ok(tb) => {
+                out.push(("wnaf_mul_with_table/reused", guard(|| cx.mul_with_table(tb, &k)).and_then(|o| o.ok_or("returned None for a table of exactly 2^(w-1) entries".to_string()))));
+                let longer: Vec<G> = tb.iter().copied().chain([base, gen]).collect();
+                out.push(("wnaf_mul_with_table/longer", guard(|| cx.mul_with_table(&longer, &k)).and_then(|o| o.ok_or("returned None for a table longer than needed".to_string()))));
+            }
+            Err(m) => out.push(("wnaf_table", Err(m.clone()))),
+        }
+        if *alpha {
+            path!(out, "wnaf_mul", cx.mul(base, &k));
+        }
+        for (site, res) in out {
+            match res {
+                Ok(g) => {
+                    loc.check_at(site, same(&g, &want), || format!("{name}: wNAF window {w}, P = 3G, k = {label} via {site}: got {} want {}", g.into_affine(), want.into_affine()));
+                }
+                Err(m) => loc.fail_at(site, format!("{name}: wNAF window {w}, P = 3G, k = {label} via {site}: {m}")),
+            }
         }
     });
 }
@@ -1225,6 +1417,7 @@ fn shipped_all(ctx: &mut Ctx) {
     shipped_batch_large_windows::<ark_bls12_381::G1Projective>(ctx, "bls12_381/g1");
     shipped_batch_large_windows::<ark_ed_on_bls12_381::EdwardsProjective>(ctx, "ed_on_bls12_381");
     shipped_batch_large_windows::<ark_secp256k1::Projective>(ctx, "secp256k1");
+    shipped_wnaf_large_windows::<ark_bls12_381::G1Projective>(ctx, "bls12_381/g1");
     // ---- the GLV configurations (grep `impl GLVConfig for`): 10 curve crates + test-curves bls12_381 g1
     shipped_glv::<ark_bls12_377::g1::Config>(ctx, "bls12_377/g1", true);
     shipped_glv::<ark_bls12_377::g2::Config>(ctx, "bls12_377/g2", false);
@@ -1287,7 +1480,20 @@ fn shipped_all(ctx: &mut Ctx) {
 // =====================================================================================================
 fn main() {
     let mut ctx = Ctx::from_args("C04");
-    ctx.require(&["batch:window>=13", 
+    ctx.require(&[
+        "batch:window>=13",
+        "batch:built_table_window>=13",
+        "batch:built_table_window_3..=10",
+        "batch:built_table_last_window_shorter",
+        "batch:window<=10_multi_window_scalar_real_curve",
+        "batch:BatchMulPreprocessing::new_real_curve",
+        "batch:ScalarMul::batch_mul_real_curve",
+        "wnaf:window>=9_multi_digit_scalar_real_curve",
+        "wnaf:window>=12_multi_digit_scalar_real_curve",
+        "wnaf:precomputed_table_window≠4_real_curve",
+        "glv:affine_and_projective_every_bit_position",
+        "P_outside_subgroup:override_with_trivial_glv_split",
+        "shipped:curves_with_point_outside_subgroup",
         "k=0",
         "k=1",
         "k=r-1",
@@ -1297,22 +1503,24 @@ fn main() {
         "P_outside_subgroup",
         "wnaf:carry_out_of_top_window",
         "wnaf:window>bits(r)",
-        "wnaf:short_table_none",
+        "wnaf:short_table",
         "wnaf:invalid_window_panics",
         "batch:last_window_shorter",
         "batch:hint≠len",
         "glv:k1_negative",
         "glv:k2_negative",
-        "glv:impl_k1_negative",
-        "glv:impl_k2_negative",
         "more_limbs_than_scalar_field",
     ]);
+    // (glv:impl_k1_negative / glv:impl_k2_negative - the signs the library happened to return - and the observed:* classes
+    // are metrics only: the property needs k = k1 + lambda*k2 with signed halves, not a particular sign pattern)
     ctx.assume("oracle (toy): k*P read from a table of multiples built by REPEATED ADDITION with the textbook affine chord-and-tangent / Edwards law on u64 arithmetic; for a point of order m the raw integer k is reduced mod m (k*P for the true integer k)");
     ctx.assume("oracle (shipped): plain MSB-first double-and-add written in the harness on top of the group's `+` and `double` (property C03), never mul_bigint / Mul; results compared after into_affine()");
     ctx.assume("model <-> implementation conversion of points decodes projective coordinates with model arithmetic (toycurve::idx_proj); scalars through ScalarField::from(u64) / From<BigUint> with a round-trip check (property C01)");
     ctx.assume("incomplete twisted Edwards parameters (a non-square: toy TeP103, shipped bandersnatch-like curves): only the prime-order subgroup is in scope, as the property states; for every other curve ALL points of E(F_p) are multiplied");
     ctx.assume("BatchMulPreprocessing: max_scalar_size is documented as the maximum size of the scalars that will be multiplied - sizes below bits(r) are exercised only with scalars < 2^size; size 0 is outside the space");
-    ctx.assume("WnafContext: `new` is documented to panic unless 2 <= w < 64 (asserted); tables for w > 16 (2^(w-1) group elements) are not materialised - those windows are exercised through the too-short-table refusal only");
+    ctx.assume("WnafContext: `new` is documented (rustdoc '# Panics') to panic unless 2 <= w < 64 (asserted for that reason); tables for w > 16 (2^(w-1) group elements) are not materialised - those windows are exercised through too-short tables only. A too-short table: None (as documented) or the correct k*P are both accepted; the table layout ([P,3P,..], table(w+1) extending table(w)) is observed, not judged - tables are judged through mul_with_table on the context's own table, exact or padded");
+    ctx.assume("known finding K2 (G1 mul_projective override outside the subgroup) is confined to scalars that reach the GLV path and are reduced mod r or split non-trivially (2k|n22| >= r or 2k|n12| >= r); every other scalar on the outside point is filed under .../outside_subgroup_small_k and reported if it fails");
+    ctx.assume("shipped curves: agreement of the reference double-and-add between the affine and projective form of an alphabet point (C03) and the BigUint -> ScalarField -> BigInt round trip (C01) are preconditions (self-validation), not C04 verdicts");
     ctx.assume("GLV: the property demands the identity k = k1 + lambda*k2 (mod r) and glv_mul = k*P for points of the prime-order subgroup; the size of the halves is not stated and is reported as a class (impl_halves_differ_from_nearest_rounding), not checked. Classes glv:k{1,2}_negative come from a reference Babai round-off with exact nearest rounding; glv:impl_* record the signs the library returned");
 
     // ------------------------------------------------------------------ toy curves (E)
@@ -1355,7 +1563,7 @@ fn main() {
     shipped_all(&mut ctx);
     ctx.bound("shipped.points", "O, G, -G, 2G (Z != 1), and for cofactor > 1 (complete curves) the first curve point outside the prime-order subgroup (x resp. y = 0,1,2,...), affine and projective (Z != 1)");
     ctx.bound("shipped.scalars", "ScalarField: 0,1,2,3,r-1,r-2,(r-1)/2,floor(r/2)+-1,2^64-1,2^64,2^127,2^128+-1,2^(bits(r)-1),2^(bits(r)-1)-1, two generic patterns; GLV curves: lambda, lambda+-1, r-lambda, lambda^2, |n_ij|, |n_ij|+1, r-|n_ij|; raw slices: [], [0], [5], r, r+1, 2^(64N)-1, 2r-1, [0;N+1], [7,0..0], [r-1,0], [r+2,0,0], 2^(64N), 4*2^(64N)-1; bit positions: k = 2^j-1, 2^j, 2^j+1 for every j <= bits(r) on 2G and on the point outside the subgroup (quick: curves with 4-limb scalar fields and base fields <= 96 bytes; thorough: all)");
-    ctx.bound("shipped.paths", "affine/projective mul_bigint, *, *=, (ref / mut-ref variants), mul_bits_be (full, stripped, padded), wNAF windows 2..=6 (thorough 2..=8) (+ table of window 4, short table); GLV curves: scalar_decomposition, glv_mul_projective, glv_mul_affine, endomorphism, endomorphism_affine");
+    ctx.bound("shipped.paths", "affine/projective mul_bigint, *, *=, (ref / mut-ref variants), mul_bits_be (full, stripped, padded), wNAF windows 2..=6 (thorough 2..=8) (+ exact / padded / one-entry-short table: window 4 on every point, every window on 2G and the outside point); GLV curves: scalar_decomposition, glv_mul_projective, glv_mul_affine (alphabet; every bit position on G, 2G, generic*G for both), endomorphism, endomorphism_affine");
 
     std::process::exit(ctx.finish());
 }
